@@ -367,6 +367,22 @@ type mgen struct {
 
 func (g *mgen) val() int { g.next++; return g.next }
 
+// valFor is val with an occasional value at a type boundary for the integer-valued kinds.
+func (g *mgen) valFor(kind string) int {
+	v := g.val()
+	switch kind {
+	case "mem.limit", "mem.reservation", "mem.swap", "mem.kernel", "mem.kernel_tcp", "cpu.quota", "cpu.rt_runtime", "pids":
+		if g.rng.Intn(20) == 0 {
+			return pick(g.rng, []int{1<<63 - 1, 1 << 32, 1<<31 - 1})
+		}
+	case "mem.swappiness", "cpu.shares", "cpu.period", "cpu.rt_period", "huge", "rlimit":
+		if g.rng.Intn(20) == 0 {
+			return pick(g.rng, []int{1<<63 - 1, 1 << 32, 1<<32 - 1})
+		}
+	}
+	return v
+}
+
 // genOrig populates an original container / update request.
 func (g *mgen) genOrig(kind string, full bool) []MOp {
 	var ops []MOp
@@ -383,7 +399,7 @@ func (g *mgen) genOrig(kind string, full bool) []MOp {
 			continue
 		}
 		if g.rng.Float64() < p {
-			ops = append(ops, MOp{Kind: it.kind, Key: it.key, Act: "set", Val: g.val()})
+			ops = append(ops, MOp{Kind: it.kind, Key: it.key, Act: "set", Val: g.valFor(it.kind)})
 		}
 	}
 	if kind == "create" && g.rng.Intn(2) == 0 {
@@ -420,7 +436,7 @@ func (g *mgen) genReq(kind, id string, order []string, collide float64, focus st
 					continue
 				}
 				key := id + "|" + it.kind + "|" + it.key
-				o := MOp{Kind: it.kind, Key: it.key, Val: g.val()}
+				o := MOp{Kind: it.kind, Key: it.key, Val: g.valFor(it.kind)}
 				prev, taken := owned[key]
 				switch {
 				case taken && prev == p:
@@ -492,7 +508,7 @@ func (g *mgen) genReq(kind, id string, order []string, collide float64, focus st
 					continue
 				}
 				used[key] = true
-				u.Ops = append(u.Ops, MOp{Kind: it.kind, Key: it.key, Act: "set", Val: g.val()})
+				u.Ops = append(u.Ops, MOp{Kind: it.kind, Key: it.key, Act: "set", Val: g.valFor(it.kind)})
 			}
 			// the generator's bookkeeping: claims of an update that will be dropped are not kept
 			clash := false
